@@ -567,6 +567,26 @@ def rule_vars(ctx, F):
             if re.search(r"Record::<.*>::%s\(|::%s\(" % (field, field), s) and isinstance(v, bool):
                 return True
         return False
+    # Other Data: the digest is fed `Option<Time48>` (6 octets or nothing), which MessageTsig::variables takes from
+    # Tsig::other_time() -- None for every length but 6.  Unless the digest is fed the octets as they are, the extraction has
+    # to refuse the lengths the digest cannot see.
+    raw_other = any(re.search(r"Tsig::<.*>::other\(|::other\(", s) and "other_time" not in s for s in fed)
+    if not raw_other:
+        # the refusal: an Err return reached under a test of the Other Data's length against 6 (the accepting side has no
+        # single dominating fact: `len == 0 || len == 6`)
+        lens = []
+        for r in return_assignments(fm):
+            if r[2] != "Err":
+                continue
+            for tt, v, _ in facts_at(fm, r[0], F):
+                s = show(deep_strip(tt))
+                if re.search(r"::other\(", s) and re.search(r"len\(", s) and re.search(r"\b6\b", s):
+                    lens.append((s, v))
+        ctx.ob(R, fm, "extraction insists that Other Data is empty or a 6-octet time", bool(lens),
+               "Variables::sign digests Other Len 0 whenever the TSIG record's Other Data is not exactly 6 octets long, and "
+               "MessageTsig::from_message accepts any length: 1, 4, 5, 7 or 16 octets of Other Data can be added to a signed "
+               "request or response without failing verification (RFC 8945 4.3.3 lists Other Len and Other Data among the "
+               "signed variables)", fm.where(oks[0]))
     for field, is_const, what in (("class", const_class, "CLASS is ANY"), ("ttl", const_ttl, "TTL is 0")):
         if not is_const:
             continue
